@@ -41,7 +41,7 @@ def run(rep, ix, tier):
     check_seek_targets(rep, ix, pm)
     # every index entry and every fetched record is built by LogicalRecordPosition: its guards must admit conformant layouts
     from . import C01
-    C01.check_envelope(rep, ix, pm, only=('LogicalRecordPosition.__init__',))
+    C01.check_envelope(rep, ix, pm, only=('VisibleRecord._read', 'LogicalRecordPosition.__init__'))
     rep.floor('R-C01-ENVELOPE', 8)
     rep.floor('R-C02-TARGET', 10)
     rep.floor('R-C02-BUDGET', 5)
@@ -88,6 +88,15 @@ def check_budget(rep, ix, pm):
     rep.ob('R-C02-BUDGET', site, 'reading stops when the amount taken reaches the requested length', len(stop_tests) >= 1,
            found=str([ast.unparse(s.test) for s in stop_tests]), required=f'test on {taken[0] if taken else "?"} and {ln}',
            node=f, module=pm)
+    # where the slice starts: the part of the requested offset that lies beyond what the earlier segments held
+    for s in slices:
+        lo = s.value.slice.lower
+        src = defuse.inline_locals(f, lo, depth=2) if lo is not None else None
+        txt = ast.unparse(src).replace(' ', '') if src is not None else ''
+        ok_lo = src is not None and isinstance(src, ast.Call) and attr_chain(src.func) == 'max' and len(src.args) == 2 and not src.keywords \
+            and sorted(ast.unparse(a).replace(' ', '') for a in src.args)[0] == '0' and isinstance([a for a in src.args if not isinstance(a, ast.Constant)][0], ast.BinOp) \
+            and isinstance([a for a in src.args if not isinstance(a, ast.Constant)][0].op, ast.Sub) and ast.unparse([a for a in src.args if not isinstance(a, ast.Constant)][0].left) == off
+        rep.ob('R-C02-BUDGET', site, 'the slice starts at max(0, offset - bytes of the record already passed)', bool(ok_lo), found=txt, required=f'max(0, {off} - <running index>)', node=s, module=pm)
     for s in slices:
         up = s.value.slice.upper
         dep = defuse.closure(f, up, stop=()) if up is not None else set()
